@@ -17,7 +17,8 @@ FORMS = ["fn", "method", "closure"]
 
 
 class R:
-    def __init__(self):
+    def __init__(self, order="dlast"):
+        self.order = order     # where a match writes its default arm: dlast | dfirst | dmid
         self.ret = 0
         self.cmp = 0
         self.pre = []          # declarations hoisted to the top of the function
@@ -54,12 +55,16 @@ def rstmt(s, r, ind):
         return ["%sif %s == 1 {" % (pad, p)] + rblock(s["t"], r, ind + 1) + ["%s} else if %s == 2 {" % (pad, p)] + \
             rblock(s["u"], r, ind + 1) + [pad + "} else {"] + rblock(s["e"], r, ind + 1) + [pad + "}"]
     if k in ("match1", "match2"):
-        o = ["%smatch %s {" % (pad, p), "%s    1 => {" % pad] + rblock(s["a"], r, ind + 2) + [pad + "    }"]
+        # the arms are rendered in the specification's order (parameter numbering), then written in the order of
+        # the layout: which arm is taken does not depend on where the default arm is written
+        arms = [["%s    1 => {" % pad] + rblock(s["a"], r, ind + 2) + [pad + "    }"]]
         if k == "match2":
-            o += ["%s    2 => {" % pad] + rblock(s["b"], r, ind + 2) + [pad + "    }"]
+            arms.append(["%s    2 => {" % pad] + rblock(s["b"], r, ind + 2) + [pad + "    }"])
         if not is_nodefault(s["d"]):
-            o += ["%s    _ => {" % pad] + rblock(s["d"], r, ind + 2) + [pad + "    }"]
-        return o + [pad + "}"]
+            dflt = ["%s    _ => {" % pad] + rblock(s["d"], r, ind + 2) + [pad + "    }"]
+            pos = {"dlast": len(arms), "dfirst": 0, "dmid": min(1, len(arms))}[r.order]
+            arms.insert(pos, dflt)
+        return ["%smatch %s {" % (pad, p)] + [l for a in arms for l in a] + [pad + "}"]
     if k == "while":
         r.pre.append("    let i%d: i32 = 0;" % n)
         return ["%si%d = 0;" % (pad, n), "%swhile i%d < %s {" % (pad, n, p), "%s    i%d = i%d + 1;" % (pad, n, n)] + \
@@ -77,7 +82,8 @@ def is_nodefault(d):
 
 
 def render(case, form, with_calls=True):
-    r = R()
+    form, _, order = form.partition("/")
+    r = R(order or "dlast")
     body = rblock(case["body"], r, 1)
     n = case["nparams"]
     params = ", ".join("p%d: i32" % i for i in range(1, n + 1))
@@ -143,6 +149,9 @@ def run(tier, seed, replay=None):
     jobs, index = [], []
     for c in cases:
         fs = forms if (tier == "thorough" or replay or max_depth(c["body"]) <= 1) else [FORMS[len(jobs) % 3]]
+        if not replay and has_default_match(c["body"]):
+            # the same body with the default arm written first / in the middle (one form, rotating)
+            fs = list(fs) + [FORMS[len(jobs) % 3] + "/dfirst", FORMS[(len(jobs) + 1) % 3] + "/dmid"]
         for form in fs:
             d = env.tmpdir("c05")
             p = os.path.join(d, "m.fer")
@@ -225,6 +234,15 @@ def signature(shape):
     s = re.sub(r"p,(?=[rbc])", "", s)          # `print, X`  ->  X
     s = re.sub(r"(?<![a-z0-9])p(?![a-z0-9])", "", s)   # a block that only prints == empty block
     return s
+
+
+def has_default_match(b):
+    for s in b:
+        if s["k"] in ("match1", "match2") and not is_nodefault(s["d"]):
+            return True
+        if any(has_default_match(s[x]) for x in ("t", "u", "e", "a", "b", "d") if x in s and not is_nodefault(s[x])):
+            return True
+    return False
 
 
 def max_depth(b):
